@@ -99,6 +99,10 @@ func newHistory(universe []txRec, nonces map[int]int) {
 // first one to ask for that transaction)
 var skipLookups bool
 
+// pre018: the history runs under the rules below the Proposal018 height (PackForCast does not
+// order by nonce there; the per-block limit and the other pack clauses hold all the same)
+var pre018 bool
+
 func project() map[string]interface{} {
 	st := map[string]interface{}{}
 	st["lookupSkipped"] = skipLookups
@@ -178,7 +182,7 @@ func runHistory(tr *vutil.Trace, universe []txRec, nonces map[int]int, h []op) i
 			tr.Emit(map[string]interface{}{"event": "Add", "t": o.T, "ok": ok && err == nil, "state": project()})
 		case "Pack", "PackMark":
 			out := pool.PackForCast(uint64(len(chain)+1), stateDB)
-			tr.Emit(map[string]interface{}{"event": "Pack", "out": ids(out), "state": project()})
+			tr.Emit(map[string]interface{}{"event": "Pack", "out": ids(out), "pre018": pre018, "state": project()})
 			if o.Op == "PackMark" {
 				calls++
 				mark(tr, out, nil, uint64(len(chain)+1))
@@ -340,6 +344,15 @@ func main() {
 				op{"UnMarkLast", 0}, op{"Pack", 0}, op{"PackMark", 0}, op{"Pack", 0}, op{"Add", k})
 			calls += runHistory(tr, universe, map[int]int{9: 0}, h)
 			nh++
+			if k >= 150 { // the same below the Proposal018 height
+				saved := common.LocalChainConfig.Proposal018Block
+				common.LocalChainConfig.Proposal018Block = 1 << 50
+				pre018 = true
+				calls += runHistory(tr, universe, map[int]int{9: 0}, h)
+				nh++
+				pre018 = false
+				common.LocalChainConfig.Proposal018Block = saved
+			}
 		}
 	}
 	if *tickRaceN > 0 {
@@ -374,27 +387,42 @@ func fullPoolReorg(tr *vutil.Trace) {
 		t.Hash = t.GenHash()
 		return t
 	}
-	blk := []*types.Transaction{mkf(0), mkf(1), mkf(2)}
+	// two blocks: a short one and a full one (the removed blocks together carry more transactions
+	// than one block holds)
+	mkblk := func(from, n int) []*types.Transaction {
+		b := make([]*types.Transaction, 0, n)
+		for i := 0; i < n; i++ {
+			b = append(b, mkf(from+i))
+		}
+		return b
+	}
+	blk1, blk2 := mkblk(0, 3), mkblk(3, 200)
+	blk := append(append([]*types.Transaction{}, blk1...), blk2...)
 	for _, t := range blk {
 		pool.AddTransaction(t)
 	}
-	rs := types.Receipts{}
-	for _, t := range blk {
-		r := types.NewReceipt(nil, false, 0, 1, "", t.Source, "")
-		r.TxHash = t.Hash
-		rs = append(rs, r)
+	book := func(height uint64, b []*types.Transaction) *types.BlockHeader {
+		rs := types.Receipts{}
+		for _, t := range b {
+			r := types.NewReceipt(nil, false, 0, 1, "", t.Source, "")
+			r.TxHash = t.Hash
+			rs = append(rs, r)
+		}
+		hd := &types.BlockHeader{Height: height, Hash: common.BytesToHash(common.Sha256([]byte(fmt.Sprintf("blk-full-%d-%d", histNo, height))))}
+		pool.MarkExecuted(hd, rs, b, nil)
+		return hd
 	}
-	h := &types.BlockHeader{Height: 1, Hash: common.BytesToHash(common.Sha256([]byte(fmt.Sprintf("blk-full-%d", histNo))))}
-	pool.MarkExecuted(h, rs, blk, nil)
+	h, h2 := book(1, blk1), book(2, blk2)
 	filler := make([]common.Hash, 0, 50000)
-	for i := 10; len(filler) < 50000 && i < 200000; i++ {
+	for i := 1000; len(filler) < 50000 && i < 200000; i++ {
 		t := mkf(i)
 		if ok, _ := pool.AddTransaction(t); ok && pool.IsExisted(t.Hash) {
 			filler = append(filler, t.Hash)
 		}
 	}
 	full := int(pool.TxNum())
-	pool.UnMarkExecuted(&types.Block{Header: h, Transactions: blk})
+	pool.UnMarkExecuted(&types.Block{Header: h2, Transactions: blk2})
+	pool.UnMarkExecuted(&types.Block{Header: h, Transactions: blk1})
 	pendingAgain, stillExecuted := 0, 0
 	got := map[common.Hash]bool{}
 	for _, t := range pool.GetReceived() {
